@@ -9,7 +9,7 @@ IFC, OVF, STL = 5, 6, 15
 # functions with their argument shapes
 #   s, t : byte strings   a, b : numeric arguments [m, k, suffix] (value m / 2**k; b may be None)
 FUNCS = ['LEFT', 'RIGHT', 'MID', 'INSTR', 'STRING', 'STRINGS', 'SPACE', 'LEN', 'ASC', 'CHR', 'CONCAT', 'CMP',
-         'MIDSET', 'LSET', 'RSET']
+         'MIDSET', 'LSET', 'RSET', 'COMP']
 
 
 def num_text(arg):
@@ -152,6 +152,20 @@ class C09(core.Check):
             c.append({'f': f, 's': A, 't': [88, 89], 'tm': 'prog'})
             c.append({'f': f, 's': A, 't': [88, 89], 'tm': 'field'})
             c.append({'f': f, 's': A, 't': A, 'tm': 'self'})
+        # compositions: the result of a string function of V$ as the source of MID$= / LSET / RSET on V$
+        # (seeded change C09b: LEFT$ handing back its operand made MID$(A$,2)=LEFT$(A$,255) an overlap copy)
+        for tm in ('var', 'prog', 'arr', 'field'):
+            for g, x, y in (('LEFT', n(255), None), ('LEFT', n(6), None), ('LEFT', n(5), None),
+                            ('RIGHT', n(255), None), ('RIGHT', n(6), None), ('MID', n(1), None),
+                            ('MID', n(1), n(255)), ('MID', n(1), n(6)), ('CAT', None, None), ('VAR', None, None),
+                            ('LEFT', n(256), None), ('MID', n(0), None)):
+                for st in (n(2), n(3), n(1)):
+                    c.append({'f': 'COMP', 'st': 'MIDSET', 's': A, 'tm': tm, 'a': st, 'b': None,
+                              'g': g, 'x': x, 'y': y})
+                c.append({'f': 'COMP', 'st': 'MIDSET', 's': A, 'tm': tm, 'a': n(2), 'b': n(3), 'g': g, 'x': x, 'y': y})
+                c.append({'f': 'COMP', 'st': 'MIDSET', 's': A, 'tm': tm, 'a': n(9), 'b': None, 'g': g, 'x': x, 'y': y})
+                c.append({'f': 'COMP', 'st': 'LSET', 's': A, 'tm': tm, 'g': g, 'x': x, 'y': y})
+                c.append({'f': 'COMP', 'st': 'RSET', 's': A, 'tm': tm, 'g': g, 'x': x, 'y': y})
         return c
 
     # pools
@@ -260,7 +274,7 @@ class C09(core.Check):
                          'b': None if nu is None else [nu, 0, ''], 'same': 0})
         weights = [('LEFT', 8), ('RIGHT', 8), ('MID', 14), ('INSTR', 14), ('STRING', 5), ('STRINGS', 3),
                    ('SPACE', 3), ('LEN', 2), ('ASC', 3), ('CHR', 3), ('CONCAT', 6), ('CMP', 10),
-                   ('MIDSET', 14), ('LSET', 5), ('RSET', 5)]
+                   ('MIDSET', 14), ('LSET', 5), ('RSET', 5), ('COMP', 14)]
         names = [w[0] for w in weights]
         ws = [w[1] for w in weights]
         while len(out) < n:
@@ -352,6 +366,42 @@ class C09(core.Check):
                 else:
                     a = self._num(len(s))
                 add({'f': f, 's': s, 't': t, 'tm': tm, 'a': a, 'b': b, 'same': same})
+            elif f == 'COMP':
+                s = self._bytes()
+                if not s and rng.random() < 0.8:
+                    s = self._bytes(n=rng.randrange(1, 10))
+                L = len(s)
+                st = rng.choices(['MIDSET', 'LSET', 'RSET'], [6, 2, 2])[0]
+                g = rng.choice(['LEFT', 'LEFT', 'RIGHT', 'MID', 'MID', 'CAT', 'VAR'])
+
+                def count():
+                    # counts covering the whole string are the interesting ones
+                    r = rng.random()
+                    if r < 0.6:
+                        return [rng.choice([L, L, L + 1, 255, 254, L + rng.randrange(0, 5)]), 0, '']
+                    if r < 0.85:
+                        return [rng.randrange(0, L + 2), 0, '']
+                    return self._num(L)
+                x = y = None
+                if g in ('LEFT', 'RIGHT'):
+                    x = count()
+                elif g == 'MID':
+                    x = [1, 0, ''] if rng.random() < 0.6 else self._num(L)
+                    y = None if rng.random() < 0.4 else count()
+                r = rng.random()
+                tm = 'var'
+                if r < 0.2 and printable(s) and len(s) < 100:
+                    tm = 'prog'
+                elif r < 0.4:
+                    tm = 'arr'
+                elif r < 0.55 and 0 < len(s) <= 128:
+                    tm = 'field'
+                c = {'f': 'COMP', 'st': st, 's': s, 'tm': tm, 'g': g, 'x': x, 'y': y}
+                if st == 'MIDSET':
+                    c['a'] = [rng.randrange(1, L + 1), 0, ''] if s and rng.random() < 0.8 else self._num(L)
+                    r = rng.random()
+                    c['b'] = None if r < 0.5 else ([rng.randrange(0, L + 3), 0, ''] if r < 0.85 else self._num(L))
+                add(c)
             else:
                 s = self._bytes()
                 r = rng.random()
@@ -413,6 +463,8 @@ class C09(core.Check):
             raise Refused('operand longer than 255 bytes cannot exist in BASIC')
         if f in ('MIDSET', 'LSET', 'RSET'):
             return self._impl_stmt(case)
+        if f == 'COMP':
+            return self._impl_comp(case)
         with common.new_session() as s:
             sm = case.get('sm', 'var')
             S = self._operand(s, 'A$', case['s'], sm) if 's' in case else None
@@ -470,6 +522,77 @@ class C09(core.Check):
             if sm == 'var' and 's' in case and list(s.get_variable('A$')) != case['s']:
                 raise Refused('operand changed')
             return [0] + list(s.get_variable('R$'))
+
+    @staticmethod
+    def _comp_source(case, V):
+        g = case['g']
+        x = num_text(case['x']) if case.get('x') is not None else None
+        y = num_text(case['y']) if case.get('y') is not None else None
+        if g == 'LEFT':
+            return 'LEFT$(%s,%s)' % (V, x)
+        if g == 'RIGHT':
+            return 'RIGHT$(%s,%s)' % (V, x)
+        if g == 'MID':
+            return 'MID$(%s,%s)' % (V, x) if y is None else 'MID$(%s,%s,%s)' % (V, x, y)
+        if g == 'CAT':
+            return V + '+""'
+        if g == 'VAR':
+            return V
+        raise Refused('unknown source %s' % g)
+
+    def _impl_comp(self, case):
+        """<statement on V$> = <string function of V$>, V$ a string-space string, a program literal,
+        an array element or a FIELD variable."""
+        st, tm, tgt = case['st'], case['tm'], case['s']
+        V = 'A$(1)' if tm == 'arr' else 'A$'
+        src = self._comp_source(case, V)
+        if st == 'MIDSET':
+            a = num_text(case['a'])
+            head = 'MID$(%s,%s)' % (V, a) if case.get('b') is None else 'MID$(%s,%s,%s)' % (V, a, num_text(case['b']))
+        else:
+            head = '%s %s' % (st, V)
+        stmt = '%s=%s' % (head, src)
+        d = None
+        try:
+            kw = {}
+            if tm == 'field':
+                d = common.tmpdir('c09')
+                kw = dict(devices={'C': d}, current_device='C:')
+            with common.new_session(**kw) as s:
+                if tm == 'prog':
+                    line = '10 A$=%s:%s' % (str_expr(tgt, 'lit'), stmt)
+                    if len(line) > 250:
+                        raise Refused('line too long')
+                    s.execute(line)
+                    err = self._run(s, 'RUN')
+                elif tm == 'arr':
+                    s.set_variable('B$', bytes(tgt))
+                    err = self._run(s, 'DIM A$(3):A$(1)=B$')
+                    if err is not None:
+                        raise Refused('array setup failed with %s' % err)
+                    err = self._run(s, stmt)
+                elif tm == 'field':
+                    err = self._run(s, 'OPEN "R",#1,"T.DAT",%d:FIELD #1,%d AS A$' % (len(tgt), len(tgt)))
+                    if err is not None:
+                        raise Refused('FIELD setup failed with %s' % err)
+                    s.set_variable('B$', bytes(tgt))
+                    err = self._run(s, 'LSET A$=B$')
+                    if err is not None or list(s.get_variable('A$')) != tgt:
+                        raise Refused('FIELD fill failed')
+                    err = self._run(s, stmt)
+                else:
+                    s.set_variable('A$', bytes(tgt))
+                    err = self._run(s, stmt)
+                if err is not None:
+                    return [1, err]
+                s.set_variable('R$', b'?')
+                err = self._run(s, 'R$=' + V)
+                if err is not None:
+                    raise Refused('reading the target back failed with %s' % err)
+                return [0] + list(s.get_variable('R$'))
+        finally:
+            if d:
+                common.rmtree(d)
 
     def _impl_stmt(self, case):
         f, tm = case['f'], case.get('tm', 'var')
@@ -559,6 +682,18 @@ class C09(core.Check):
                     '[0; op_eq a b; op_neq a b; op_gt a b; op_gte a b; op_lte a b; op_lt a b])' % (S, T))
         if f == 'MIDSET':
             return 'enc_res (mid_stmt %s %s %s %s %s)' % (S, a, opt(b), T, 'true' if case['same'] else 'false')
+        if f == 'COMP':
+            g = case['g']
+            x = num_coq(case['x']) if case.get('x') is not None else None
+            y = num_coq(case['y']) if case.get('y') is not None else None
+            # the source is composed as a VALUE (a fresh string); only the bare variable is the same buffer
+            src = {'LEFT': '(left_ s %s)' % x, 'RIGHT': '(right_ s %s)' % x, 'MID': '(mid_ s %s %s)' % (x, opt(y)),
+                   'CAT': '(concat s [])', 'VAR': '(Ok s)'}[g]
+            if case['st'] == 'MIDSET':
+                if g == 'VAR':
+                    return '(let s := %s in enc_res (mid_stmt s %s %s s true))' % (S, a, opt(b))
+                return '(let s := %s in enc_res (mid_stmt_src s %s %s %s))' % (S, a, opt(b), src)
+            return '(let s := %s in enc_res (lset_src s %s %s))' % (S, src, 'true' if case['st'] == 'RSET' else 'false')
         if f == 'LSET':
             return 'enc_res (lset_stmt %s %s)' % (S, T)
         if f == 'RSET':
@@ -577,6 +712,25 @@ class C09(core.Check):
     def reference(self, case):
         """The reference definition of each function on Python bytes, with the documented ranges."""
         f = case['f']
+        if f == 'COMP':
+            tgt = case['s']
+            if case['st'] == 'MIDSET':
+                # the statement's own argument errors come first
+                pre = self.reference({'f': 'MIDSET', 's': tgt, 't': [], 'a': case['a'], 'b': case.get('b'), 'same': 0})
+                if pre[0] == 1:
+                    return pre
+            g = case['g']
+            if g in ('CAT', 'VAR'):
+                val = [0] + list(tgt)
+            else:
+                val = self.reference({'f': g, 's': tgt, 'a': case['x'], 'b': case.get('y')})
+            if val[0] == 1:
+                return val
+            # a function result is a value: a fresh copy of the bytes, whatever the count was
+            if case['st'] == 'MIDSET':
+                return self.reference({'f': 'MIDSET', 's': tgt, 't': val[1:], 'a': case['a'], 'b': case.get('b'),
+                                       'same': 1 if g == 'VAR' else 0})
+            return self.reference({'f': case['st'], 's': tgt, 't': val[1:]})
         s = bytes(case.get('s', []))
         t = bytes(case.get('t', []))
         qa = num_value(case['a']) if case.get('a') is not None else None
@@ -686,7 +840,7 @@ class C09(core.Check):
             def show(x):
                 return str(x) if len(x) < 24 else str(x[:24])[:-1] + ', ... (%d items)]' % len(x)
             return '%s: observed %s, reference definition gives %s' % (case['f'], show(out), show(want))
-        if case['f'] in ('MIDSET', 'LSET', 'RSET') and out[0] == 0 and len(out) - 1 != len(case['s']):
+        if case['f'] in ('MIDSET', 'LSET', 'RSET', 'COMP') and out[0] == 0 and len(out) - 1 != len(case['s']):
             return '%s changed the length of its target' % case['f']
         if out[0] == 0 and case['f'] not in ('INSTR', 'LEN', 'ASC', 'CMP') and len(out) - 1 > 255:
             return 'result longer than 255 bytes'
